@@ -508,7 +508,7 @@ func runLayout(r *core.Run) {
 			if c, ok := res.(*ssa.Const); ok && c.Int64() == 0 {
 				// short read: guarded by len(data) < width
 				fs := blockFacts(b)
-				goal := linConst(tc.width - 1).add(linAtom("len(%"+rb.Name()+")"), -1)
+				goal := linConst(tc.width-1).add(linAtom("len(%"+rb.Name()+")"), -1)
 				r.Check(entails(fs, goal), tc.name+" short-read guard", ret.Pos(), "", fmt.Sprintf("zero is returned under %v, expected exactly len(data) < %d", factStrings(fs), tc.width))
 				continue
 			}
